@@ -6,8 +6,7 @@ import CodeLimit.Lemmas.ScanBoundsPyBlocks
 * `scopeBlockIndices` returns valid block indices, so the selected blocks are a non-empty
   sublist of the blocks whenever the index list is non-empty: `buildScopesLoop` never raises;
 * every scope's block range is `[min s, max e]` of the blocks selected for its header
-  (`ScopeSel`); with blocks in start order some selected block starts at or after the header
-  start (`ScopeSel.good`).
+  (`ScopeSel`); some selected block starts at or after the header end (`ScopeSel.good`).
 -/
 namespace CL
 
@@ -190,7 +189,7 @@ def selBlocks (h : Range) (blocks : List Range) : List Range :=
   match nearestBlock h blocks.reverse none with
   | none => []
   | some body =>
-    if body.contains h then blocks.filter (fun b => body.contains b)
+    if body.contains h then blocks.filter (fun b => body.contains b && decide (b.s ≥ h.e))
     else blocks.filter (fun b => body.overlaps b && !b.lt body)
 
 theorem filterMap_getElem?_snd (blocks : List Range) : ∀ (l : List (Range × Nat)),
@@ -217,8 +216,9 @@ theorem scopeBlockIndices_sel (h : Range) (blocks : List Range) :
   | none => simp [scopeBlockIndices, selBlocks, hnb]
   | some body =>
     by_cases hc : body.contains h = true
-    · have h1 := filterMap_zipIdx_filter_snd blocks (fun p => body.contains p.1)
-      have h2 := zipIdx_filter_fst (fun b => body.contains b) blocks 0
+    · have h1 := filterMap_zipIdx_filter_snd blocks
+        (fun p => body.contains p.1 && decide (p.1.s ≥ h.e))
+      have h2 := zipIdx_filter_fst (fun b => body.contains b && decide (b.s ≥ h.e)) blocks 0
       simp only [scopeBlockIndices, selBlocks, hnb, hc, if_true]
       constructor
       · exact h1.trans h2
@@ -240,46 +240,33 @@ theorem selBlocks_subset (h : Range) (blocks : List Range) : ∀ b ∈ selBlocks
 theorem Range.overlaps_self (b : Range) (h : b.s ≤ b.e) : b.overlaps b = true := by
   simp [Range.overlaps, h]
 
-/-- with blocks listed in start order, some selected block starts at or after the header start -/
-theorem selBlocks_good {h : Range} {blocks : List Range} (hh : h.s < h.e)
-    (hwf : ∀ b ∈ blocks, b.s ≤ b.e)
-    (hsorted : blocks.Pairwise (fun a b => a.s ≤ b.s)) (hne : selBlocks h blocks ≠ []) :
-    ∃ b ∈ selBlocks h blocks, h.s ≤ b.s := by
+/-- some selected block starts at or after the header END: either the nearest block follows the
+header and is selected itself, or (enclosing block) only blocks starting at or after the header
+end are selected -/
+theorem selBlocks_good {h : Range} {blocks : List Range}
+    (hwf : ∀ b ∈ blocks, b.s ≤ b.e) (hne : selBlocks h blocks ≠ []) :
+    ∃ b ∈ selBlocks h blocks, h.e ≤ b.s := by
   unfold selBlocks at hne ⊢
   split at hne
   · exact absurd rfl hne
   · next body hbody =>
-    rcases nearestBlock_spec h blocks.reverse none body (by simp) hbody with
-      ⟨h1, h2⟩ | ⟨_, hc, r1, r2, hrev, hr1⟩
-    · -- the nearest block follows the header
-      have hmem : body ∈ blocks := by
-        rcases h2 with h2 | h2
-        · exact List.mem_reverse.1 h2
-        · cases h2
-      have hnc : body.contains h = false := by
-        simp only [Range.contains, Bool.and_eq_false_iff, decide_eq_false_iff_not]
-        left; omega
-      simp only [hnc, Bool.false_eq_true, if_false]
-      refine ⟨body, List.mem_filter.2 ⟨hmem, ?_⟩, by omega⟩
-      simp [Range.overlaps_self body (hwf body hmem), Range.lt]
-    · -- the nearest block encloses the header
-      simp only [hc, if_true] at hne ⊢
+    by_cases hc : body.contains h = true
+    · simp only [hc, if_true] at hne ⊢
       obtain ⟨b, hb⟩ := List.exists_mem_of_ne_nil _ hne
       refine ⟨b, hb, ?_⟩
-      obtain ⟨hbm, hbc⟩ := List.mem_filter.1 hb
-      have hblocks : blocks = r2.reverse ++ body :: r1.reverse := by
-        have := congrArg List.reverse hrev
-        simpa using this
-      rw [hblocks] at hbm hsorted
-      rcases List.mem_append.1 hbm with hbm | hbm
-      · -- listed before `body`: starts no later than `body`, so not strictly inside
-        have := (List.pairwise_append.1 hsorted).2.2 b hbm body List.mem_cons_self
-        simp only [Range.contains, Bool.and_eq_true, decide_eq_true_eq] at hbc
-        omega
-      · rcases List.mem_cons.1 hbm with rfl | hbm
-        · simp only [Range.contains, Bool.and_eq_true, decide_eq_true_eq] at hbc
-          omega
-        · exact hr1 b (List.mem_reverse.1 hbm)
+      have := (List.mem_filter.1 hb).2
+      simp only [Bool.and_eq_true, decide_eq_true_eq] at this
+      exact this.2
+    · rcases nearestBlock_spec h blocks.reverse none body (by simp) hbody with
+        ⟨h1, h2⟩ | ⟨_, hc', _⟩
+      · have hmem : body ∈ blocks := by
+          rcases h2 with h2 | h2
+          · exact List.mem_reverse.1 h2
+          · cases h2
+        simp only [hc, Bool.false_eq_true, if_false]
+        refine ⟨body, List.mem_filter.2 ⟨hmem, ?_⟩, h1⟩
+        simp [Range.overlaps_self body (hwf body hmem), Range.lt]
+      · exact absurd hc' hc
 
 /-! ## the scope loop -/
 
@@ -332,13 +319,11 @@ theorem ScopeSel.ok {n : Nat} {sc : Scope} {bl : List Range} (h : ScopeSel sc bl
   obtain ⟨b, hb, he⟩ := h.e_mem.1
   rw [he]; exact hbl b hb
 
-/-- with blocks in start order: some block that starts at or after the header start ends
-no later than the scope -/
+/-- some block that starts at or after the header end ends no later than the scope -/
 theorem ScopeSel.good {sc : Scope} {bl : List Range} (h : ScopeSel sc bl)
-    (hh : sc.hdr.rng.s < sc.hdr.rng.e) (hwf : ∀ b ∈ bl, b.s ≤ b.e)
-    (hsorted : bl.Pairwise (fun a b => a.s ≤ b.s)) :
-    ∃ b ∈ bl, sc.hdr.rng.s ≤ b.s ∧ b.e ≤ sc.blk.e := by
-  obtain ⟨b, hb, hbs⟩ := selBlocks_good hh hwf hsorted h.1
+    (hwf : ∀ b ∈ bl, b.s ≤ b.e) :
+    ∃ b ∈ bl, sc.hdr.rng.e ≤ b.s ∧ b.e ≤ sc.blk.e := by
+  obtain ⟨b, hb, hbs⟩ := selBlocks_good hwf h.1
   exact ⟨b, selBlocks_subset _ _ b hb, hbs, h.e_mem.2 b hb⟩
 
 /-! ## `buildScopes0` -/
